@@ -21,3 +21,16 @@ reg("C13",
          "TLC and the JSON bridge are trusted; the spec's Live/Leaves/Ops definitions transcribe the docstrings of count_live_tiles/count_operations.",
     technique="TLA+/TLC exhaustive model checking of the iterator state machine + replay of every TLC behaviour's history into the real code",
     design_ref="DESIGN.md 4.1, 5/C13")
+
+reg("C03",
+    text="spec/WorkQueue.tla models producer, bounded queue, feeder thread, reader lock, receive/lock timeouts, the shutdown flag and joins at the "
+         "granularity of multiprocessing's critical sections; TLC checks AtMostOnce, ReturnedImpliesAll, NoLossAtSet, Bounded and termination under "
+         "fairness over every interleaving for small item/worker/capacity constants (it found the lost-item race that is now fixed). TLC-simulated "
+         "behaviours are replayed step by step into the real visit_leaves / transform code running on a fake multiprocessing, comparing the projected "
+         "state after every step; all four real stages are then explored under random and adversarial (spec-action-named) schedules and with real "
+         "processes, with the property's sentences as monitors.",
+    note="multiprocessing.Queue/Event/Process are trusted to behave like lib/simmp.py's fakes (step structure transcribed from CPython 3.12 queues.py); "
+         "real-process runs sample this. Exhaustive only for <= 5 items, <= 3 workers in the spec; the real code is explored by sampling schedules, "
+         "not exhaustively.",
+    technique="TLA+/TLC exhaustive model checking + liveness; replay of TLC behaviours into the real code under a deterministic scheduler; schedule exploration",
+    design_ref="DESIGN.md 4.3, 3 (M1, M2), 5/C03")
